@@ -6,6 +6,7 @@ use std::io::{BufRead, Write};
 pub mod codec;
 pub mod frag;
 pub mod milud;
+pub mod route;
 
 pub fn read_cases(path: &str) -> Vec<J> {
     let f = std::fs::File::open(path).unwrap_or_else(|e| panic!("open {}: {}", path, e));
@@ -68,6 +69,8 @@ pub fn main() {
         "frag-grid" => frag::grid(rest),
         "frag-trace" => frag::trace(rest),
         "codec" => codec::main(rest),
+        "route" => route::main(rest),
+        "lb" => route::lb_main(rest),
         "parse" => milud::parse_main(rest),
         "types" => milud::types_main(rest),
         x => {
